@@ -3,7 +3,8 @@
 Small typed random DAGs over float32 tensors with static shapes (Add/Sub/Mul/Neg/Relu/Transpose/Split/Concat/MatMul),
 with planted — possibly chained / overlapping — instances of a rule's pattern in the main graph, in If / Loop bodies
 (depth <= 2, using outer-scope values) and in model-local functions; instance results are used as graph outputs and
-inside subgraphs; nodes carry metadata_props.  Every value has a numpy example, so declared shapes are the observed ones.
+inside subgraphs; nodes carry metadata_props.  The plants "reluadd" / "mul1c" write the commutative node of an instance with its operands
+in either order (for rules applied with commute=True).  Every value has a numpy example, so declared shapes are the observed ones.
 """
 from __future__ import annotations
 
@@ -16,7 +17,7 @@ FN_DOMAIN = "c07.local"
 CUSTOM_DOMAIN = "custom.c07"
 
 # pattern kinds a host can be seeded with (what `plant` emits)
-PLANTS = ("neg", "sub", "add", "mul", "tt", "mul1", "add0", "split", "relu", "subrelu", "negneg", "diamond")
+PLANTS = ("neg", "sub", "add", "mul", "tt", "mul1", "add0", "split", "relu", "subrelu", "negneg", "diamond", "reluadd", "mul1c")
 
 
 class Val:
@@ -43,6 +44,7 @@ class Ctx:
         self.clash_name = clash_name
         self.avoid_in_main = ()    # operators the main graph must not contain (nested-only stratum)
         self.force_use = []        # outer values every body must consume (nested-only stratum)
+        self.swapped = 0           # planted instances whose commutative node has its operands in the order opposite to the pattern
 
     def name(self, p="v"):
         self.k += 1
@@ -173,6 +175,27 @@ class Scope:
             r = self.emit("Add", [u[0], w[0]], [u[0].ex + w[0].ex], planted=True)
             if rng.random() < 0.2:  # an intermediate gets a use outside: the instance is no longer removable
                 self.emit("Neg", [u[0]], [-u[0].ex])
+        elif kind == "reluadd":
+            # Add(Relu(a), b) with the operands of the commutative node in EITHER order (commute=True workloads)
+            a = self.pick()
+            b = self.pick(lambda v: v.shape == a.shape) or a
+            t = self.emit("Relu", [a], [np.maximum(a.ex, 0)])
+            if rng.random() < 0.03:  # the free operand IS the instance's own intermediate: Add(r, r) with r = Relu(a)
+                b = t[0]
+            swap = rng.random() < 0.55
+            r = self.emit("Add", [b, t[0]] if swap else [t[0], b], [t[0].ex + b.ex], planted=True)
+            ctx.swapped += int(swap)
+            if rng.random() < 0.2:  # the intermediate gets a second use: the instance is no longer removable
+                self.emit("Neg", [t[0]], [-t[0].ex])
+        elif kind == "mul1c":
+            # Mul(a, 1) / Mul(1, a): a constant operand on either side of a commutative node
+            a = self.pick()
+            c = self.scalar_const(1.0)
+            if rng.random() < 0.2:  # near miss: wrong constant
+                c = self.scalar_const(2.0)
+            swap = rng.random() < 0.55
+            r = self.emit("Mul", [c, a] if swap else [a, c], [a.ex * c.ex], planted=True)
+            ctx.swapped += int(swap)
         elif kind == "negneg":
             a = self.pick()
             t = self.emit("Neg", [a], [-a.ex])
@@ -364,7 +387,8 @@ def _function(ctx, main, n_plants):
 
 
 ROOT_OPS = {"neg": ("Neg",), "sub": ("Sub",), "add": ("Add",), "mul": ("Mul",), "tt": ("Transpose",), "mul1": ("Mul",), "add0": ("Add",),
-            "split": ("Split",), "relu": ("Relu",), "subrelu": ("Relu", "Sub"), "negneg": ("Neg",), "diamond": ("Add", "Sub")}
+            "split": ("Split",), "relu": ("Relu",), "subrelu": ("Relu", "Sub"), "negneg": ("Neg",), "diamond": ("Add", "Sub"),
+            "reluadd": ("Add", "Relu"), "mul1c": ("Mul",)}
 
 
 def make_host(rng, plant, *, n_nodes=6, k_plants=2, subgraphs=True, functions=True, clash_name=None, custom_fn=False, nested_only=False,
@@ -466,7 +490,7 @@ def make_host(rng, plant, *, n_nodes=6, k_plants=2, subgraphs=True, functions=Tr
                                         [helper.make_node("Constant", [], ["cz"], value=zt), helper.make_node("Max", ["cx", "cz"], ["cy"])],
                                         [helper.make_opsetid("", OPSET)]))
     m = helper.make_model(g, opset_imports=imports, functions=fns, ir_version=10)
-    info = {"planted": ctx.planted, "where": sorted(ctx.where),
+    info = {"planted": ctx.planted, "where": sorted(ctx.where), "swapped": ctx.swapped,
             "inputs": {v.name: list(v.shape) for v in gin}}
     return m, info
 
